@@ -7,6 +7,9 @@ pub open spec fn bytes_as_chars(b: Seq<u8>) -> Seq<char> { Seq::new(b.len(), |i:
 pub assume_specification[String::from_utf8_unchecked](v: Vec<u8>) -> (s: String)
   requires forall|i: int| 0 <= i < v@.len() ==> v@[i] < 128,
   ensures s@ == bytes_as_chars(v@);
+// std: "Computes the absolute difference between self and other" (a refactoring may reach for it)
+pub assume_specification[u32::abs_diff](a: u32, b: u32) -> (r: u32)
+  ensures r == (if a >= b { a - b } else { b - a });
 pub assume_specification<T: Default>[std::mem::take](x: &mut T) -> (r: T)
   ensures r == *old(x);
 pub proof fn lemma_vlq_wire(n: nat)
